@@ -35,40 +35,53 @@ def main():
         r = subprocess.run([exe, p, "--tier", tier, "--seed", "1", "--part", f"{part}/{nparts}", "--log",
                             f"{SCR}/logs/{p}.{part}.log"], stdout=subprocess.DEVNULL, stderr=subprocess.DEVNULL, env=env)
         return p, part, r.returncode
-    jobs = [(p, i) for p in props for i in range(nparts)]
-    bad = []
-    with cf.ThreadPoolExecutor(16) as ex:
-        for p, part, rc in ex.map(one, jobs):
-            if rc != 0:
-                bad.append((p, part, rc))
-    # gcov over every library object
     libdir = SCR + "/build/cov/lib"
-    gcdas = glob.glob(libdir + "/**/*.gcda", recursive=True)
     out = SCR + "/gcov"
     os.makedirs(out)
+    bad = []
     files = {}
-    for g in gcdas:
-        r = subprocess.run(["gcov", "--json-format", "--stdout", g], cwd=out, stdout=subprocess.PIPE, stderr=subprocess.DEVNULL)
-        if r.returncode:
-            continue
-        for doc in r.stdout.decode(errors="replace").splitlines():
-            if not doc.strip():
+    per_prop = {}
+
+    def collect():
+        got = {}
+        for g in glob.glob(libdir + "/**/*.gcda", recursive=True):
+            r = subprocess.run(["gcov", "--json-format", "--stdout", g], cwd=out, stdout=subprocess.PIPE, stderr=subprocess.DEVNULL)
+            if r.returncode:
                 continue
-            try:
-                j = json.loads(doc)
-            except Exception:
-                continue
-            for f in j.get("files", []):
-                name = f["file"]
-                if not name.startswith(check.REPO + "/spqlios") and not name.startswith("spqlios"):
-                    if "/spqlios/" not in name:
+            for doc in r.stdout.decode(errors="replace").splitlines():
+                try:
+                    j = json.loads(doc)
+                except Exception:
+                    continue
+                for f in j.get("files", []):
+                    name = f["file"]
+                    if "spqlios/" not in name or "/harness/" in name:
                         continue
-                rel = name[name.index("spqlios/"):]
-                e = files.setdefault(rel, dict(lines={}, funcs={}))
-                for ln in f.get("lines", []):
-                    e["lines"][ln["line_number"]] = e["lines"].get(ln["line_number"], 0) + ln["count"]
-                for fn in f.get("functions", []):
-                    e["funcs"][fn["name"]] = e["funcs"].get(fn["name"], 0) + fn["execution_count"]
+                    rel = name[name.index("spqlios/"):]
+                    e = got.setdefault(rel, dict(lines={}, funcs={}))
+                    for ln in f.get("lines", []):
+                        e["lines"][ln["line_number"]] = e["lines"].get(ln["line_number"], 0) + ln["count"]
+                    for fn in f.get("functions", []):
+                        e["funcs"][fn["name"]] = e["funcs"].get(fn["name"], 0) + fn["execution_count"]
+        return got
+    for p in props:
+        for g in glob.glob(libdir + "/**/*.gcda", recursive=True):
+            os.remove(g)
+        with cf.ThreadPoolExecutor(16) as ex:
+            for pp, part, rc in ex.map(one, [(p, i) for i in range(nparts)]):
+                if rc != 0:
+                    bad.append((pp, part, rc))
+        got = collect()
+        tl_ = sum(len(e["lines"]) for e in got.values())
+        te_ = sum(1 for e in got.values() for c in e["lines"].values() if c > 0)
+        per_prop[p] = dict(executed_lines=te_, functions_entered=sum(1 for e in got.values() for c in e["funcs"].values() if c > 0))
+        for rel, e in got.items():
+            t = files.setdefault(rel, dict(lines={}, funcs={}))
+            for k, c in e["lines"].items():
+                t["lines"][k] = t["lines"].get(k, 0) + c
+            for k, c in e["funcs"].items():
+                t["funcs"][k] = t["funcs"].get(k, 0) + c
+        print(p, per_prop[p], flush=True)
     summ = {}
     unc = []
     ulines = []
@@ -96,7 +109,7 @@ def main():
     os.makedirs(ROOT + "/coverage", exist_ok=True)
     head = subprocess.run(["git", "-C", check.REPO, "rev-parse", "HEAD"], stdout=subprocess.PIPE, text=True).stdout.strip()
     json.dump(dict(tier=tier, properties=props, repo_head=head, executable_lines=tl, executed_lines=te,
-                   harness_failures=bad, files=summ), open(ROOT + "/coverage/summary.json", "w"), indent=1)
+                   harness_failures=bad, per_property=per_prop, files=summ), open(ROOT + "/coverage/summary.json", "w"), indent=1)
     open(ROOT + "/coverage/uncovered.txt", "w").write("\n".join(unc) + "\n")
     open(ROOT + "/coverage/uncovered_lines.txt", "w").write("\n".join(ulines) + "\n")
     print(f"library lines executed by the {tier} workloads: {te}/{tl} ({100.0 * te / max(tl, 1):.1f}%); "
